@@ -5,12 +5,24 @@ Tie:
      test of the retry wrapper), the commit-or-rollback choice of `Transaction._aexit_1` and whether a failing rollback can
      replace the body's exception are regenerated from the current source into coq/generated/C27/Gen.v; Lemmas.v proves the
      classification equal to the literal specification (1040/1213/2003/2013 operational, 1205 internal).
+     The Database.* helpers (just_execute, execute_update, execute_insertone, execute_and_fetchone, select_and_fetchone,
+     execute_many, check_call_procedure) and the Transaction methods they call are walked too: each helper must be
+     `@retry_transient_mysql_errors` around exactly ONE `async with self.start(..) as tx:` block whose only statement hands the
+     helper's parameters UNCHANGED to one Transaction method, which sends them in exactly one cursor.execute /
+     cursor.executemany on every path; the statement plan of that single transaction (`[x]`, resp. the whole argument array)
+     is emitted as Gen.helper_plan and proved equal to the hand specification DbTx.Model.helper_stmts.  Anything else
+     (a loop, a second transaction, a slice of the array) fails closed.
   X  the REAL gear.database code (`transaction` decorator, `Database.*` helpers, `Transaction`, `TransactionAsyncContextManager`,
-     `retry_transient_mysql_errors`) runs over a fake aiomysql pool/connection/cursor (harness/impl/c27_dbtx.py, the trusted
-     stand-in for aiomysql + InnoDB, with the pymysql.err shim) under injected faults at acquire / START TRANSACTION / every
-     statement / COMMIT / ROLLBACK for up to 3 consecutive attempts; per attempt the exception that reached the retry wrapper
-     and the committed log are compared with the Coq model (DbTx/Model.v instantiated with the generated pieces).
-Oracle: the property statement evaluated on the real code + fake only (no model).
+     `retry_transient_mysql_errors`) runs over a recording fake aiomysql pool/connection/cursor (harness/impl/c27_dbtx.py, the
+     trusted stand-in for aiomysql + InnoDB, with the pymysql.err shim) under injected faults at acquire / START TRANSACTION /
+     every statement / COMMIT / ROLLBACK for up to 3 consecutive attempts; per attempt the exception that reached the retry
+     wrapper and the committed log are compared with the Coq model (DbTx/Model.v instantiated with the generated pieces).
+     Database.execute_many is driven with argument arrays of 1001 and 2500 rows (one statement per row, and aiomysql's bulk
+     path with multi-row statements) with faults at the first / middle / last row, rows 999-1001 and 1999-2001 and at COMMIT.
+Oracle: the property statement evaluated on the real code + fake only (no model): judged by the committed log of the fake
+     database and by which injected faults actually fired.  The fault plan is indexed by the attempt of the RETRY WRAPPER
+     (boundary = gear.database.sleep_before_try) and by the number of statements the attempt has executed so far on whatever
+     connections / transactions the code chooses, so the verdict does not depend on how the code scopes its transactions.
 """
 import ast
 import itertools
@@ -275,6 +287,152 @@ def _check_wrapper(src):
         raise TieBroken('py-translator', 'transaction(): body is not `async with db.start(read_only=read_only) as tx: return await fun(tx, *args, **kwargs)`')
 
 
+HELPER_CTOR = [('just_execute', 'HJustExecute'), ('execute_update', 'HExecuteUpdate'), ('execute_insertone', 'HExecuteInsertone'),
+               ('execute_and_fetchone', 'HExecuteAndFetchone'), ('select_and_fetchone', 'HSelectAndFetchone'),
+               ('check_call_procedure', 'HCheckCallProcedure'), ('execute_many', 'HExecuteMany')]
+
+
+def _strip_doc(stmts):
+    return [s for s in stmts if not (isinstance(s, ast.Expr) and isinstance(s.value, ast.Constant))]
+
+
+def _plain_params(fn, what):
+    a = fn.args
+    if a.vararg or a.kwarg or a.posonlyargs:
+        raise TieBroken('py-translator', f'{what}: *args/**kwargs/positional-only parameters not understood')
+    names = [x.arg for x in a.args] + [x.arg for x in a.kwonlyargs]
+    if not names or names[0] != 'self':
+        raise TieBroken('py-translator', f'{what}: not a method')
+    return [x.arg for x in a.args], [x.arg for x in a.kwonlyargs]
+
+
+def _passes_params_unchanged(call, pos, kwonly, what):
+    """call(...) hands over the enclosing method's parameters (after self) by position in order / by their own name, nothing else"""
+    if len(call.args) > len(pos) - 1:
+        raise TieBroken('py-translator', f'{what}: more arguments than parameters')
+    for k, a in enumerate(call.args):
+        if not (isinstance(a, ast.Name) and a.id == pos[k + 1]):
+            raise TieBroken('py-translator', f'line {call.lineno}: {what}: argument {k + 1} is `{ast.unparse(a)[:60]}`, not the parameter '
+                                             f'`{pos[k + 1]}` handed over unchanged')
+    for kw in call.keywords:
+        if kw.arg is None or not (isinstance(kw.value, ast.Name) and kw.value.id == kw.arg and kw.arg in pos[1:] + kwonly):
+            raise TieBroken('py-translator', f'line {call.lineno}: {what}: keyword `{ast.unparse(kw)[:60]}` is not a parameter handed over unchanged')
+    if len(call.args) < 2:
+        raise TieBroken('py-translator', f'line {call.lineno}: {what}: the sql/argument parameters are not both handed over')
+
+
+def _tx_method_kind(src, m):
+    """Transaction.<m>: exactly one cursor.execute(sql, args) ('one') / cursor.executemany(sql, args_array) ('array') on every path,
+    with the method's own parameters"""
+    what = f'Transaction.{m}'
+    fn = find_function(src, what)
+    if not isinstance(fn, ast.AsyncFunctionDef) or fn.decorator_list:
+        raise TieBroken('py-translator', f'{what}: expected an undecorated async method')
+    pos, kwonly = _plain_params(fn, what)
+    if len(pos) < 3:
+        raise TieBroken('py-translator', f'{what}: expected (self, sql, args, ...)')
+    body = [s for s in _strip_doc(fn.body) if not isinstance(s, ast.Assert)]
+    if len(body) != 1 or not isinstance(body[0], ast.AsyncWith) or len(body[0].items) != 1 \
+            or ast.unparse(body[0].items[0].context_expr) != 'self.conn.cursor()' \
+            or not isinstance(body[0].items[0].optional_vars, ast.Name):
+        raise TieBroken('py-translator', f'{what}: body is not a single `async with self.conn.cursor() as cursor:` block')
+    cur = body[0].items[0].optional_vars.id
+    kinds = set()
+
+    def sends(node):
+        """number of statements sent to the server by the expression/statement `node`"""
+        k = 0
+        for x in ast.walk(node):
+            if isinstance(x, ast.Call) and isinstance(x.func, ast.Attribute) and isinstance(x.func.value, ast.Name) and x.func.value.id == cur \
+                    and x.func.attr in ('execute', 'executemany', 'callproc'):
+                if x.func.attr == 'callproc' or x.keywords or len(x.args) != 2 \
+                        or [ast.unparse(a) for a in x.args] != [pos[1], pos[2]]:
+                    raise TieBroken('py-translator', f'line {x.lineno}: {what}: `{ast.unparse(x)[:80]}` does not send ({pos[1]}, {pos[2]}) unchanged')
+                kinds.add(x.func.attr)
+                k += 1
+        return k
+
+    def paths(stmts, acc):
+        """acc: list of (count, finished) -> same after running stmts"""
+        for s in stmts:
+            live = [p for p in acc if not p[1]]
+            done = [p for p in acc if p[1]]
+            if not live:
+                break
+            if isinstance(s, ast.If):
+                if sends(s.test):
+                    raise TieBroken('py-translator', f'line {s.lineno}: {what}: statement sent inside a condition')
+                acc = done + paths(s.body, list(live)) + paths(s.orelse, list(live))
+            elif isinstance(s, (ast.AsyncWith, ast.With)):
+                if any(sends(i.context_expr) for i in s.items):
+                    raise TieBroken('py-translator', f'line {s.lineno}: {what}: statement sent inside a with-item')
+                acc = done + paths(s.body, list(live))
+            elif isinstance(s, (ast.Return, ast.Expr, ast.Assign, ast.AnnAssign, ast.AugAssign, ast.Assert, ast.Pass)):
+                k = sends(s)
+                acc = done + [(c + k, isinstance(s, ast.Return)) for c, _ in live]
+            else:
+                if sends(s):
+                    raise TieBroken('py-translator', f'line {s.lineno}: {what}: statement sent inside a `{type(s).__name__}` block '
+                                                     '(a loop / try may send it several times or not at all)')
+                for x in ast.walk(s):
+                    if isinstance(x, (ast.Return, ast.Raise, ast.Break, ast.Continue, ast.Await)):
+                        raise TieBroken('py-translator', f'line {s.lineno}: {what}: control flow not understood')
+        return acc
+
+    out = paths(body[0].body, [(0, False)])
+    counts = {c for c, _ in out}
+    if counts != {1} or len(kinds) != 1:
+        raise TieBroken('py-translator', f'{what}: sends {sorted(counts)} statements ({sorted(kinds)}) depending on the path, expected exactly one')
+    return 'one' if kinds == {'execute'} else 'array'
+
+
+def _helper_plans(src):
+    """Database.<helper> -> 'one' (a single statement) | 'array' (the whole argument array), in ONE transaction under the retry wrapper"""
+    plans = {}
+    for h, _ in HELPER_CTOR:
+        if h == 'check_call_procedure':
+            continue
+        what = f'Database.{h}'
+        fn = find_function(src, what)
+        if not isinstance(fn, ast.AsyncFunctionDef) or [ast.unparse(d) for d in fn.decorator_list] != ['retry_transient_mysql_errors']:
+            raise TieBroken('py-translator', f'{what}: expected an async method decorated with retry_transient_mysql_errors only')
+        pos, kwonly = _plain_params(fn, what)
+        body = _strip_doc(fn.body)
+        if len(body) != 1 or not isinstance(body[0], ast.AsyncWith) or len(body[0].items) != 1 \
+                or ast.unparse(body[0].items[0].context_expr) not in ('self.start()', 'self.start(read_only=True)', 'self.start(read_only=False)') \
+                or not isinstance(body[0].items[0].optional_vars, ast.Name):
+            raise TieBroken('py-translator', f'line {fn.lineno}: {what}: body is not exactly one `async with self.start(..) as tx:` block '
+                                             '(several transactions / a loop around the transaction are not all-or-nothing)')
+        tx = body[0].items[0].optional_vars.id
+        inner = _strip_doc(body[0].body)
+        if len(inner) != 1 or not isinstance(inner[0], (ast.Return, ast.Expr)) or not isinstance(inner[0].value, ast.Await) \
+                or not isinstance(inner[0].value.value, ast.Call):
+            raise TieBroken('py-translator', f'line {body[0].lineno}: {what}: the transaction block is not a single `[return] await {tx}.<method>(...)`')
+        call = inner[0].value.value
+        if not (isinstance(call.func, ast.Attribute) and isinstance(call.func.value, ast.Name) and call.func.value.id == tx):
+            raise TieBroken('py-translator', f'line {call.lineno}: {what}: expected a call of a method of `{tx}`')
+        _passes_params_unchanged(call, pos, kwonly, what)
+        plans[h] = _tx_method_kind(src, call.func.attr)
+    # check_call_procedure: the retried wrapper around self.execute_and_fetchone plus a return-code test
+    what = 'Database.check_call_procedure'
+    fn = find_function(src, what)
+    if not isinstance(fn, ast.AsyncFunctionDef) or [ast.unparse(d) for d in fn.decorator_list] != ['retry_transient_mysql_errors']:
+        raise TieBroken('py-translator', f'{what}: expected an async method decorated with retry_transient_mysql_errors only')
+    pos, kwonly = _plain_params(fn, what)
+    awaits = [x for s in fn.body for x in ast.walk(s) if isinstance(x, ast.Await)]
+    loops = [x for s in fn.body for x in ast.walk(s) if isinstance(x, (ast.For, ast.While, ast.AsyncFor, ast.AsyncWith, ast.Try))]
+    if len(awaits) != 1 or loops or not isinstance(awaits[0].value, ast.Call) or ast.unparse(awaits[0].value.func) != 'self.execute_and_fetchone':
+        raise TieBroken('py-translator', f'{what}: expected exactly one `await self.execute_and_fetchone(...)` and no loop / transaction block')
+    _passes_params_unchanged(awaits[0].value, pos, kwonly, what)
+    plans['check_call_procedure'] = plans['execute_and_fetchone']
+    for h, _ in HELPER_CTOR:
+        want = 'array' if h == 'execute_many' else 'one'
+        if plans[h] != want:
+            raise TieBroken('py-translator', f'Database.{h}: sends {"one statement" if plans[h] == "one" else "an argument array"}, '
+                                             f'the model expects {"an argument array" if want == "array" else "one statement"}')
+    return plans
+
+
 def generate(ctx):
     src = ctx.read_repo(SRC)
     tree = ast.parse(src)
@@ -286,7 +444,10 @@ def generate(ctx):
     body = cl.body(fn.body)
     a_exc, a_ok, guarded = _exit_shape(src)
     _check_wrapper(src)
-    tdefs = '\n'.join(f'Definition {k} : list Z := {listlit([zlit(v) for v in vs])}.' for k, vs in sorted(cl.used_tuples.items()))
+    plans = _helper_plans(src)
+    plan_arms = '\n'.join(f'  | {ctor} {"rows" if plans[h] == "array" else "x"} => {"rows" if plans[h] == "array" else "[x]"}'
+                          for h, ctor in HELPER_CTOR)
+    tdefs ='\n'.join(f'Definition {k} : list Z := {listlit([zlit(v) for v in vs])}.' for k, vs in sorted(cl.used_tuples.items()))
     ddefs = '\n'.join(f'Definition {k} : list (Z * Z) := {listlit([f"({zlit(a)}, {zlit(b)})" for a, b in vs])}.'
                       for k, vs in sorted(cl.used_dicts.items()))
     text = f'''(* GENERATED by harness/props/C27.py from {SRC} — do not edit *)
@@ -311,6 +472,14 @@ Definition retryable (e : err) : bool :=
 Definition on_exit (exc_type_set : bool) : exit_action := if exc_type_set then {a_exc} else {a_ok}.
 (* is the error-path action wrapped in its own `try: ... except Exception: <log>`? *)
 Definition rollback_guarded : bool := {'true' if guarded else 'false'}.
+
+(* Database.<helper>: `@retry_transient_mysql_errors async def helper(self, sql, args..): async with self.start(..) as tx:
+   [return] await tx.<method>(sql, args..)` with <method> sending exactly one cursor.execute(sql, args) /
+   cursor.executemany(sql, args_array): the statements of the helper's SINGLE transaction *)
+Definition helper_plan {{W : Type}} (c : helper_call W) : list W :=
+  match c with
+{plan_arms}
+  end.
 '''
     ctx.write_generated('Gen.v', text)
 
@@ -332,6 +501,42 @@ ALL_ERRS = TRANSIENT + OTHER
 LOST_REALISTIC = [_e('OperationalError', 2013), _e('OperationalError', 2006), _e('InterfaceError', None)]
 HELPERS = ['just_execute', 'execute_update', 'execute_insertone', 'execute_many', 'execute_and_fetchone', 'select_and_fetchone',
            'check_call_procedure']
+# the two async generators of Database are NOT wrapped in retry_transient_mysql_errors (rows may already have been handed to the
+# caller): oracle only, judged for all-or-nothing and error propagation, not for retries
+UNRETRIED = ['execute_and_fetchall', 'select_and_fetchall']
+# argument-array lengths for Database.execute_many (above 1000, above 2000, and the boundaries) and the row classes struck
+MANY_N = [1000, 1001, 1500, 2000, 2001, 2500, 3001]
+MANY_N_X = [1001, 2500]                  # the Coq model appends to the pending list row by row (quadratic): fewer lengths there
+NONTRANSIENT_ROW = [(_e('IntegrityError', 1062), 'stmt'), (_e('OperationalError', 1205), 'stmt'), (_e('ProgrammingError', 1064), 'txn'),
+                    (_e('InterfaceError', None), 'lost'), (_e('OperationalError', 2006), 'lost'), (_e('InternalError', 1213), 'txn')]
+TRANSIENT_ROW = [(_e('OperationalError', 1213), 'txn'), (_e('InternalError', 1205), 'stmt'), (_e('OperationalError', 2013), 'lost'),
+                 (_e('OperationalError', 1040), 'stmt'), (_e('OperationalError', 2003), 'stmt')]
+
+
+def _row_classes(n):
+    """first, second, middle, the rows around every multiple of 1000, last but one, last"""
+    want = {0, 1, n // 2, n - 2, n - 1}
+    for k in range(1000, n + 2, 1000):
+        want |= {k - 1, k, k + 1}
+    return sorted(i for i in want if 0 <= i < n)
+
+
+def _write_value(nargs):
+    """what the recording fake logs for a single statement with the argument tuple (0, 1, .., nargs-1)"""
+    return 0 if nargs <= 1 else 10 ** 6 * nargs
+
+
+def _stmts(c):
+    """the writes a successful call must leave in the log, in order"""
+    if c['entry'] in ('transaction', 'execute_many'):
+        return list(range(c['n']))
+    return [_write_value(c.get('nargs', 1))]
+
+
+def _n_statements(c):
+    if c['entry'] == 'execute_many' and c.get('chunk', 1) > 1:
+        return -(-c['n'] // c['chunk'])
+    return len(_stmts(c))
 
 
 def _is_transient(e):
@@ -357,9 +562,82 @@ def _single_faults(n, errs, lost_errs=None):
     return out
 
 
-def _mk(entry, n, hist, init=None, dirty=False):
-    return {'entry': entry, 'n': n if entry == 'transaction' else 1, 'init': init if init is not None else [100, 101], 'dirty_pool': dirty,
-            'hist': hist}
+def _mk(entry, n, hist, init=None, dirty=False, chunk=None, nargs=None):
+    c = {'entry': entry, 'n': n if entry in ('transaction', 'execute_many') else 1, 'init': init if init is not None else [100, 101],
+         'dirty_pool': dirty, 'hist': hist}
+    if entry == 'execute_many' and chunk and chunk > 1:
+        c['chunk'] = chunk
+    if entry not in ('transaction', 'execute_many') and nargs and nargs > 1:
+        c['nargs'] = nargs
+    return c
+
+
+def _from_doc(doc):
+    entry = doc.get('entry', 'transaction')
+    return _mk(entry, doc.get('n', 1), doc['hist'], doc.get('init'), doc.get('dirty_pool', False), doc.get('chunk'), doc.get('nargs'))
+
+
+def _row_fault(i, e, eff):
+    return {'stmt': [i, e, eff]}
+
+
+def _many_cases(ctx, budget, for_oracle):
+    """Database.execute_many over long argument arrays: a fault at every row class and at COMMIT, non-transient and transient,
+    alone and followed by further faults"""
+    rng = ctx.rng
+    out = []
+    lost_ok = lambda e, eff: (eff != 'lost') or (not for_oracle) or (e in LOST_REALISTIC)      # noqa: E731
+    nt = [(e, eff) for e, eff in NONTRANSIENT_ROW if lost_ok(e, eff)]
+    tr = [(e, eff) for e, eff in TRANSIENT_ROW if lost_ok(e, eff)]
+    if for_oracle:
+        for n in MANY_N:
+            for i in _row_classes(n):
+                for e, eff in nt + tr:
+                    out.append(_mk('execute_many', n, [_row_fault(i, e, eff)], init=[-5]))
+            for after in (0, n):
+                for e, lost in [(nt[0][0], False), (_e('OperationalError', 2006), True), (tr[0][0], False), (_e('OperationalError', 2013), True),
+                                (_e('InternalError', 1205), False)]:
+                    out.append(_mk('execute_many', n, [{'commit': [e, lost], 'commit_after': after}], init=[-5]))
+            out.append(_mk('execute_many', n, [], init=[-5]))
+            out.append(_mk('execute_many', n, [{'acquire': tr[3][0]}, {'start': [tr[2][0], True]}], init=[-5]))
+    else:
+        for n in MANY_N_X:
+            for i in _row_classes(n):
+                for e, eff in (nt[0], tr[0]):
+                    out.append(_mk('execute_many', n, [_row_fault(i, e, eff)], init=[-5]))
+            out.append(_mk('execute_many', n, [{'commit': [nt[0][0], False], 'commit_after': n}], init=[-5]))
+            out.append(_mk('execute_many', n, [{'commit': [_e('OperationalError', 2013), True], 'commit_after': n}], init=[-5]))
+            out.append(_mk('execute_many', n, [], init=[-5]))
+    # two and three faulty attempts in a row: transient anywhere, then transient / non-transient anywhere (or at COMMIT)
+    ns = MANY_N if for_oracle else MANY_N_X
+    for _ in range(ctx.scale(60, 600) * budget if for_oracle else ctx.scale(8, 60)):
+        n = rng.choice(ns)
+        cls = _row_classes(n)
+        hist = []
+        for j in range(rng.randint(2, 3)):
+            last = j > 0 and rng.random() < 0.4
+            e, eff = rng.choice(nt if last else tr)
+            if rng.random() < 0.2:
+                hist.append({'commit': [e, eff == 'lost'], 'commit_after': rng.choice([0, n, rng.randrange(n)])})
+            else:
+                hist.append(_row_fault(rng.choice(cls) if rng.random() < 0.7 else rng.randrange(n), e, eff))
+            if last:
+                break
+        out.append(_mk('execute_many', n, hist, init=[-5]))
+    # random lengths and rows
+    for _ in range(ctx.scale(40, 600) * budget if for_oracle else ctx.scale(4, 40)):
+        n = rng.randint(2, 3500) if for_oracle else rng.randint(2, 1500)
+        e, eff = rng.choice(nt + tr)
+        out.append(_mk('execute_many', n, [_row_fault(rng.randrange(n), e, eff)], init=[-5]))
+    # aiomysql's bulk path: multi-row wire statements; every statement index
+    for n, chunk in ([(2500, 1000), (2500, 300), (2001, 2000), (1001, 1001), (3001, 7)] if for_oracle else [(2500, 1000), (1001, 300)]):
+        k = -(-n // chunk)
+        idx = range(k) if k <= 12 else sorted({0, 1, k // 2, k - 2, k - 1})
+        for i in idx:
+            for e, eff in (nt[0], tr[0], tr[1]):
+                out.append(_mk('execute_many', n, [_row_fault(i, e, eff)], init=[-5], chunk=chunk))
+        out.append(_mk('execute_many', n, [{'commit': [tr[0][0], False], 'commit_after': k}], init=[-5], chunk=chunk))
+    return out
 
 
 def _random_fault(rng, n, errs, lost_errs=None):
@@ -380,7 +658,7 @@ def _load_corpus(ctx):
         for fn in sorted(os.listdir(d)):
             if fn.endswith('.json'):
                 doc = json.load(open(os.path.join(d, fn)))
-                out.append(_mk(doc.get('entry', 'transaction'), doc.get('n', 1), doc['hist'], doc.get('init'), doc.get('dirty_pool', False)))
+                out.append(_from_doc(doc))
     return out
 
 
@@ -415,6 +693,24 @@ def _cases(ctx, budget, for_oracle):
         for n in (0, 1, 3):
             cases.append(_mk('transaction', n, [], dirty=True))
             cases.append(_mk('transaction', n, [{'stmt': [0, TRANSIENT[1], 'txn']}], dirty=True))
+    # Database.execute_many with short argument arrays (0..4 rows): every site (exhaustive over a smaller error list)
+    for n in range(0, 5):
+        cases.append(_mk('execute_many', n, []))
+        for f in _single_faults(n, TRANSIENT[1:4] + OTHER[:3], lost):
+            cases.append(_mk('execute_many', n, [f]))
+    # the single-statement helpers with long argument tuples
+    for h in HELPERS:
+        if h != 'execute_many':
+            for nargs in (1001, 2500):
+                cases.append(_mk(h, 1, [], nargs=nargs))
+                for f in _single_faults(1, [TRANSIENT[1], OTHER[5]], lost):
+                    cases.append(_mk(h, 1, [f, {'commit': [TRANSIENT[4], False]}], nargs=nargs))
+    cases += _many_cases(ctx, budget, for_oracle)
+    if for_oracle:
+        for h in UNRETRIED:
+            cases.append(_mk(h, 1, []))
+            for f in _single_faults(1, TRANSIENT + OTHER[:6], lost):
+                cases.append(_mk(h, 1, [f]))
     return cases
 
 
@@ -454,23 +750,62 @@ def _model_err(v):
     return {'cls': cls, 'code': None if code is None else code[1]}
 
 
-def _model_runs(ctx, cases):
-    exprs = []
-    for c in cases:
-        stmts = listlit([zlit(i) for i in range(c['n'])])
-        exprs.append(f'run_Z {stmts} {listlit([_faults_lit(f) for f in c["hist"]])} {listlit([zlit(x) for x in c["init"]])} '
-                     f'{_bool(c["dirty_pool"])}')
+def _runs(log):
+    """canonical lossless view of a log: maximal runs [a, len] of consecutive integers (accepts a plain list, the fake's
+    {'runs': ..} form and the pairs printed by DbTx.Model.runs)"""
+    if isinstance(log, dict):
+        return [[int(a), int(k)] for a, k in log['runs']]
     out = []
-    for r, final, tr in coq_eval(ctx, HEADER, exprs, label='tx'):
-        out.append({'result': 'ok' if r is None else _model_err(r), 'final': final,
-                    'trace': [[_model_err(e), log] for e, log in tr]})
+    for x in log:
+        if isinstance(x, (list, tuple)):
+            out.append([int(x[0]), int(x[1])])
+        elif out and x == out[-1][0] + out[-1][1]:
+            out[-1][1] += 1
+        else:
+            out.append([x, 1])
+    return out
+
+
+def _show(runs):
+    return ' '.join(f'{a}' if k == 1 else f'{a}..{a + k - 1}' for a, k in runs) or '(empty)'
+
+
+def _model_expr(c):
+    hist = listlit([_faults_lit(f) for f in c['hist']])
+    init = listlit([zlit(x) for x in c['init']])
+    if c['entry'] == 'transaction':
+        return f'run_Z {listlit([zlit(i) for i in range(c["n"])])} {hist} {init} {_bool(c["dirty_pool"])}'
+    assert not c['dirty_pool']
+    if c['entry'] == 'execute_many':
+        if c.get('chunk', 1) > 1:
+            return f'run_chunks_Z {zlit(c["n"])} {zlit(c["chunk"])} {hist} {init}'
+        return f'run_many_Z {zlit(c["n"])} {hist} {init}'
+    ctor = dict(HELPER_CTOR)[c['entry']]
+    return f'run_helper_Z ({ctor} {zlit(_write_value(c.get("nargs", 1)))}) {hist} {init}'
+
+
+def _model_runs(ctx, cases):
+    """the Coq model on the cases -> the impl view (logs as runs)"""
+    big = [k for k, c in enumerate(cases) if c['entry'] == 'execute_many' and c['n'] > 50]
+    bigset = set(big)
+    small = [k for k in range(len(cases)) if k not in bigset]
+    vals = {}
+    for idx, label, shard in ((small, 'tx', 400), (big, 'many', 6)):
+        res = coq_eval(ctx, HEADER, [_model_expr(cases[k]) for k in idx], label=label, shard=shard)
+        vals.update(zip(idx, res))
+    out = []
+    for k in range(len(cases)):
+        r, final, tr = vals[k]
+        out.append({'result': 'ok' if r is None else _model_err(r), 'final': _runs(final),
+                    'trace': [[_model_err(e), _runs(log)] for e, log in tr]})
     return out
 
 
 def _impl_view(r):
     def ce(e):
         return None if e is None else ({'cls': e['cls'], 'code': e['code']} if not e['cls'].startswith('Other:') else e)
-    return {'result': 'ok' if r['result'] == 'ok' else ce(r['result']), 'final': r['final'], 'trace': [[ce(e), log] for e, log in r['trace']]}
+    return {'result': 'ok' if r['result'] == 'ok' else ce(r['result']), 'final': _runs(r['final']),
+            'trace': [[ce(e), _runs(log)] for e, log in r['trace']]}
 
 
 def correspond(ctx):
@@ -482,8 +817,11 @@ def correspond(ctx):
     distinct = set()
     hist = {'ok': 0, 'error': 0}
     att = {}
+    groups = {}
     for c, r, m in zip(cases, impl, model):
-        distinct.add(json.dumps([c['entry'], c['n'], c['hist'], c['dirty_pool']], sort_keys=True))
+        distinct.add(json.dumps([c['entry'], c['n'], c.get('chunk'), c.get('nargs'), c['hist'], c['dirty_pool']], sort_keys=True))
+        g = _group(c) + ('>1000rows' if c['entry'] == 'execute_many' and c['n'] > 1000 else '')
+        groups[g] = groups.get(g, 0) + 1
         hist['ok' if r['result'] == 'ok' else 'error'] += 1
         att[r['attempts']] = att.get(r['attempts'], 0) + 1
         i = _impl_view(r)
@@ -501,72 +839,83 @@ def correspond(ctx):
             k += 1
     nontrivial = sum(1 for c in cases if len(c['hist']) >= 1)
     return Corr(evaluations=len(cases) + len(exprs), distinct_nontrivial=min(nontrivial, len(distinct)),
-                rule='distinct (entry point, #statements, fault history) with at least one injected fault; real gear.database over the fake '
-                     'aiomysql pool vs DbTx.run instantiated with the generated pieces (vm_compute): call outcome, number of attempts, per '
-                     'attempt the exception that reached the retry wrapper and the committed log, final log; plus pymysql.err hierarchy',
+                rule='distinct (entry point, #statements / #rows of the argument array, rows per wire statement, fault history) with at least '
+                     'one injected fault; real gear.database over the fake aiomysql pool vs DbTx.run / gen_helper_run instantiated with the '
+                     'generated pieces (vm_compute): call outcome, number of attempts, per attempt the exception that reached the retry '
+                     'wrapper and the committed log (as runs of consecutive rows), final log; plus pymysql.err hierarchy',
                 samples=[{'case': c, 'impl': _impl_view(r)} for c, r in list(zip(cases, impl))[-3:]],
-                disagreements=dis, histograms={'outcome': hist, 'attempts': {str(k): v for k, v in sorted(att.items())}},
+                disagreements=dis, histograms={'outcome': hist, 'attempts': {str(k): v for k, v in sorted(att.items())},
+                                               'correspondence_cases': groups},
                 exhaustive=False, names=['DbTx.run~gear.database', 'DbTx.is_instance~pymysql.err'])
 
 
 # ------------------------------------------------------------------------------------------------ oracle
 
-def _site(f, n):
-    """the injected faults that fire in an attempt with plan f on n statements -> (site label, [errors])"""
-    if 'acquire' in f:
-        return 'acquire', [f['acquire']]
-    if 'start' in f:
-        return 'start-lost' if f['start'][1] else 'start', [f['start'][0]]
-    if 'stmt' in f and f['stmt'][0] < n:
-        i, e, eff = f['stmt']
-        errs = [e]
-        if eff != 'lost' and 'rollback' in f:
-            errs.append(f['rollback'])
-            return f'stmt-{eff}+rollback-fault', errs
-        return f'stmt-{eff}', errs
-    if 'commit' in f:
-        return 'commit-lost' if f['commit'][1] else 'commit', [f['commit'][0]]
-    return 'none', []
+def _fired(r, k):
+    """the injected faults that actually fired in attempt k (reported by the fake) -> (site label, [errors], statement index | None)"""
+    fl = r['fired'][k] if k < len(r['fired']) else []
+    if not fl:
+        return 'none', [], None
+    sites = [x[0] for x in fl]
+    base = [s for s in sites if s != 'rollback']
+    site = '+'.join(base) + ('+rollback-fault' if 'rollback' in sites else '') if base else 'rollback'
+    idx = next((x[2] for x in fl if len(x) > 2), None)
+    return site, [x[1] for x in fl], idx
 
 
 def _judge(c, r):
-    n, init = c['n'], c['init']
-    full = init + list(range(n))
+    """the property on one run, from what the adversary did (faults fired per attempt of the retry wrapper) and what the fake
+    database shows (committed log after every attempt and at the end) -> [(kind, detail, fault label, statement index | None)]"""
+    init = c['init']
+    r_init, r_full = _runs(init), _runs(init + _stmts(c))
+    retried_entry = c['entry'] not in UNRETRIED
     bad = []
     tr = r['trace']
-    if r['attempts'] != len(tr):
-        return [('bookkeeping', f'{r["attempts"]} acquisitions but {len(tr)} trace entries', 'trace')]
+    if r['attempts'] != len(tr) or len(r['fired']) != len(tr):
+        return [('bookkeeping', f'{r["attempts"]} attempts, {len(r["fired"])} fault records but {len(tr)} trace entries', 'trace', None)]
     if r.get('pool_dirty'):
-        bad.append(('pool-dirty', 'a connection with an open transaction / pending writes sits in the pool after the call', 'end'))
+        bad.append(('pool-dirty', 'a connection with an open transaction / pending writes sits in the pool after the call', 'end', None))
     committed_at = None
     for k, (e, log) in enumerate(tr):
-        f = c['hist'][k] if k < len(c['hist']) else {}
-        site, errs = _site(f, n)
+        site, errs, idx = _fired(r, k)
         last = k == len(tr) - 1
         label = f'{site}:' + '+'.join(f'{x["cls"]}:{x["code"]}' for x in errs)
+        at = '' if idx is None else f' at statement #{idx}'
         if not errs:
             if not (last and r['result'] == 'ok'):
-                bad.append(('fault-free-attempt-failed', f'attempt {k + 1} had no fault but did not end the call successfully ({r["result"]})', label))
+                bad.append(('fault-free-attempt-failed', f'attempt {k + 1} had no fault but did not end the call successfully ({r["result"]})',
+                            label, idx))
                 break
             committed_at = k
         else:
             kinds = {_is_transient(x) for x in errs}
-            if kinds == {True} and last:
-                bad.append(('not-retried', f'attempt {k + 1} failed with transient {label} but the call ended with {r["result"]}', label))
+            if retried_entry and kinds == {True} and last:
+                bad.append(('not-retried', f'attempt {k + 1} failed with transient {label}{at} but the call ended with {r["result"]}', label, idx))
             if kinds == {False} and not last:
-                bad.append(('retried', f'attempt {k + 1} failed with non-transient {label} but was retried', label))
+                bad.append(('retried', f'attempt {k + 1} failed with non-transient {label}{at} but was retried', label, idx))
             if last and r['result'] == 'ok':
-                bad.append(('fault-swallowed', f'attempt {k + 1} had fault {label} but the call returned successfully', label))
-        want = full if committed_at is not None and k >= committed_at else init
-        if log != want:
-            bad.append(('partial-writes', f'committed log after attempt {k + 1} is {log}, expected {want}', label))
+                bad.append(('fault-swallowed', f'attempt {k + 1} had fault {label}{at} but the call returned successfully', label, idx))
+        want = r_full if committed_at is not None and k >= committed_at else r_init
+        got = _runs(log)
+        if got != want:
+            what = 'duplicated-writes' if sum(x[1] for x in got) > sum(x[1] for x in r_full) else 'partial-writes'
+            bad.append((what, f'attempt {k + 1} ({label}{at}): the committed log after it is [{_show(got)}], expected [{_show(want)}]', label, idx))
         if bad:
             break
     if not bad:
-        want = full if r['result'] == 'ok' else init
-        if r['final'] != want:
-            bad.append(('partial-writes', f'final committed log {r["final"]}, expected {want}', 'end'))
+        want = r_full if r['result'] == 'ok' else r_init
+        got = _runs(r['final'])
+        if got != want:
+            bad.append(('partial-writes', f'final committed log [{_show(got)}], expected [{_show(want)}]', 'end', None))
     return bad
+
+
+def _group(c):
+    if c['entry'] == 'transaction':
+        return 'transaction'
+    if c['entry'] in UNRETRIED:
+        return 'generators'
+    return 'many' if c['entry'] == 'execute_many' and c['n'] > 1 else 'helpers'
 
 
 def oracle(ctx, budget):
@@ -574,31 +923,50 @@ def oracle(ctx, budget):
     out = ctx.run_impl('c27_dbtx.py', {'cases': cases}, timeout=600)
     fails = []
     hist = {}
+    groups = {}
     for c, r in zip(cases, out['results']):
-        for kind, detail, label in _judge(c, r):
+        g = _group(c)
+        groups[g] = groups.get(g, 0) + 1
+        if g == 'many' and c['n'] > 1000:
+            groups['many>1000rows'] = groups.get('many>1000rows', 0) + 1
+        if g == 'many' and c['n'] > 2000:
+            groups['many>2000rows'] = groups.get('many>2000rows', 0) + 1
+        for kind, detail, label, idx in _judge(c, r):
             hist[kind] = hist.get(kind, 0) + 1
-            group = 'transaction' if c['entry'] == 'transaction' else 'helpers'
-            fails.append(Failure(f'{group}:{kind}:{label}', f'{c["entry"]}: {detail}', c, expected=None,
-                                 observed={'result': r['result'], 'attempts': r['attempts'], 'trace': r['trace'], 'final': r['final']}))
+            key = f'{g}:{kind}:{label}'
+            if g == 'many' and idx is not None:
+                key += f'@stmt{idx // 1000}k'         # which thousand of the argument array was struck
+            fails.append(Failure(key, f'{c["entry"]}' + (f' ({c["n"]} rows)' if g == 'many' else '') + f': {detail}', c, expected=None,
+                                 observed={'result': r['result'], 'attempts': r['attempts'], 'acquisitions': r.get('acquisitions'),
+                                           'fired': r['fired'],
+                                           'trace': [[e, _show(_runs(log))] for e, log in r['trace']], 'final': _show(_runs(r['final']))}))
     fails.sort(key=lambda f: (len(json.dumps(f.case)), f.key))
     return fails, {'evaluations': len(cases), 'distinct_nontrivial': len({json.dumps(c, sort_keys=True) for c in cases if c['hist']}),
-                   'rule': 'oracle: per attempt, retried iff all injected faults that fired are transient (1040/1213/2003/2013 operational, 1205 '
-                           'internal), never retried if all are other errors (mixed: either); committed log after every attempt = initial, '
-                           'after success = initial + all statements once; real gear.database over the fake pool, no model',
+                   'rule': 'oracle: per attempt of the retry wrapper, retried iff all injected faults that fired are transient (1040/1213/2003/'
+                           '2013 operational, 1205 internal), never retried if all are other errors (mixed: either); committed log after every '
+                           'attempt = initial, after success = initial + all statements / all rows of the argument array exactly once in order; '
+                           'Database.execute_many with 1000..3001 rows struck at the first/middle/last row, around every multiple of 1000 and '
+                           'at COMMIT; real gear.database over the fake pool, no model',
                    'samples': [{'case': c, 'observed': {'result': r['result'], 'attempts': r['attempts']}}
                                for c, r in list(zip(cases, out['results']))[-2:]],
-                   'histograms': {'oracle_failures': hist}}
+                   'histograms': {'oracle_failures': hist, 'oracle_cases': groups}}
 
 
 def replay(ctx, doc):
     case = doc.get('case') or doc          # replay files carry the case under 'case'; corpus files are the case
     if not (isinstance(case, dict) and 'hist' in case):
         return {'note': 'no replayable input in this file (theorem/translator breakage); stored document follows', 'doc': doc}
-    c = _mk(case.get('entry', 'transaction'), case.get('n', 1), case['hist'], case.get('init'), case.get('dirty_pool', False))
+    c = _from_doc(case)
     r = ctx.run_impl('c27_dbtx.py', {'cases': [c]})['results'][0]
-    res = {'case': c, 'impl': r, 'property_violations': _judge(c, r) if not c['dirty_pool'] else 'n/a (dirty pool precondition)'}
+    shown = dict(r, trace=[[e, _show(_runs(log))] for e, log in r['trace']], final=_show(_runs(r['final'])))
+    res = {'case': c, 'impl': shown, 'property_violations': _judge(c, r) if not c['dirty_pool'] else 'n/a (dirty pool precondition)'}
+    if c['entry'] in UNRETRIED:
+        res['model'] = 'n/a (the un-retried async generators are judged by the oracle only)'
+        return res
     try:
-        res['model'] = _model_runs(ctx, [c])[0]
+        m = _model_runs(ctx, [c])[0]
+        res['model'] = dict(m, trace=[[e, _show(log)] for e, log in m['trace']], final=_show(m['final']))
+        res['model_agrees'] = m == _impl_view(r)
     except Exception as e:  # noqa
         res['model'] = f'unavailable: {type(e).__name__}'
     return res
